@@ -25,6 +25,8 @@ pub struct Profile {
     pub obs_only: bool,
     /// run every set-compatible call on a PrefixSet as well and require the same outcome as on the map
     pub with_set: bool,
+    /// working set = a complete chain of nested prefixes down to full width (every length occupied)
+    pub chain: bool,
 }
 
 impl Profile {
@@ -41,6 +43,7 @@ impl Profile {
             tree_every: 1,
             obs_only: false,
             with_set: false,
+            chain: false,
         };
         let (name, obs_only) = match name.strip_suffix("+obs") {
             Some(n) => (n, true),
@@ -49,6 +52,7 @@ impl Profile {
         let base = Profile { obs_only, ..base };
         match name {
             "core" => Profile { entry: false, writes: false, views: false, ..base },
+            "chain" => Profile { chain: true, obs_every: 40, ..base },
             "set" => Profile { entry: false, writes: false, views: false, with_set: true, ..base },
             "pairs" => Profile { pairs: true, entry: false, writes: false, views: false, obs_every: 60, ..base },
             "viewmut" => Profile { view_mut: true, ..base },
@@ -60,6 +64,28 @@ impl Profile {
 
 fn rand_bits(rng: &mut StdRng, n: usize) -> Vec<u8> {
     (0..n).map(|_| rng.gen_range(0..2u8)).collect()
+}
+
+/// every prefix of one full-width address from some length on (a complete chain: every length on the path
+/// is a node), plus the siblings of the last few; exercises walks of maximal depth
+pub fn chain_set(rng: &mut StdRng, tw: usize) -> Vec<Vec<u8>> {
+    let addr = rand_bits(rng, tw);
+    let from = if tw <= 16 { 0 } else { tw - 12 };
+    let mut ks: Vec<Vec<u8>> = vec![vec![]];
+    for l in from..=tw {
+        ks.push(addr[..l].to_vec());
+    }
+    for l in (tw.saturating_sub(3).max(1))..=tw {
+        let mut s = addr[..l].to_vec();
+        s[l - 1] ^= 1;
+        ks.push(s);
+    }
+    if from > 0 {
+        ks.push(addr[..from / 2].to_vec());
+    }
+    ks.sort();
+    ks.dedup();
+    ks
 }
 
 /// a clustered working set of keys (network bits) for width `tw`
@@ -329,7 +355,7 @@ pub fn drive<P: PT>(seed: u64, runs: usize, events: usize, prof: &Profile, out: 
     let mut per_action: std::collections::BTreeMap<String, u64> = Default::default();
     let mut max_entries = 0usize;
     for _run in 0..runs {
-        let keys = working_set(&mut rng, P::TW as usize);
+        let keys = if prof.chain { chain_set(&mut rng, P::TW as usize) } else { working_set(&mut rng, P::TW as usize) };
         let queries = neighbours(&keys, P::TW as usize, &mut rng);
         let mut g = Gen { rng: &mut rng, tw: P::TW as usize, keys, queries, hosts: P::HOSTS };
         let mut a: PrefixMap<P, i32> = PrefixMap::new();
@@ -345,6 +371,7 @@ pub fn drive<P: PT>(seed: u64, runs: usize, events: usize, prof: &Profile, out: 
             if prof.obs_every > 0 && i % prof.obs_every == prof.obs_every - 1 {
                 watch_begin(&json!({"a": "Obs"}));
                 let mut e = obs_event(&mut g, &ctx, &a);
+                e["sr"] = json!(true);
                 if prof.obs_only {
                     e["nolen"] = json!(true);
                 }
@@ -471,13 +498,21 @@ pub fn drive<P: PT>(seed: u64, runs: usize, events: usize, prof: &Profile, out: 
             }
             if !prof.obs_only {
                 log_line(out, &ev, &o, Some(snap), tree);
-            } else if !on_b {
+            } else {
+                // the call itself only advances the specification ...
+                let mut l = ev.clone();
+                l["lenient"] = json!(true);
+                writeln!(out, "{}", serde_json::to_string(&l).unwrap()).unwrap();
+            }
+            if prof.obs_only && !on_b {
+                // ... and the observers are judged after every call
                 let nq = g.queries.len();
                 let queries: Vec<Value> = (0..nq.min(10))
                     .map(|_| json!({"n": g.queries[rng2.gen_range(0..nq)], "h": "0"}))
                     .collect();
                 let mut l = obs_event_over(&ctx, &*target, &g.queries, &queries);
                 l["nolen"] = json!(true);
+                l["sr"] = json!(true);
                 writeln!(out, "{}", serde_json::to_string(&l).unwrap()).unwrap();
             }
             let len_after = target.len() as i64 - Coll::<P>::entries(target).len() as i64;
